@@ -121,7 +121,8 @@ class JsonUtil:
             else:
                 return 'false'
         elif isinstance(key, int):
-            return repr(key)
+            # Subclasses of int (e.g. IntEnum) may override __repr__
+            return int.__repr__(key)
         elif isinstance(key, float):
             if key != key:
                 return 'NaN'
@@ -130,7 +131,7 @@ class JsonUtil:
             elif key == -float('inf'):
                 return '-Infinity'
             else:
-                return repr(key)
+                return float.__repr__(key)
         elif key is None:
             return 'null'
         else:
